@@ -353,6 +353,32 @@ func genC18Skip(r *rng, n int) []c18Item {
 			}
 		}
 	}
+	// map counts with the top bit set (negative as int32) over variable-width keys / values, followed by k well-formed pairs:
+	// the count must be rejected; a skipper that stores 2*count-1 in 32 bits sees k pairs (count = 2^31 + k)
+	for _, k := range []uint32{0, 1, 2, 3} {
+		for _, cnt := range []uint32{1<<31 + k, 0xffffffff, 0xc0000000 + k} {
+			// map<string,i32>
+			b := be32([]byte{byte(thrift.STRING), byte(thrift.I32)}, cnt)
+			for i := uint32(0); i < k; i++ {
+				b = append(b, 0, 0, 0, 1, 'a'+byte(i), 0, 0, 0, byte(i))
+			}
+			add(thrift.MAP, append(append([]byte(nil), b...), r.bytes(r.intn(3))...))
+			// map<i64,list<i16>>
+			c := be32([]byte{byte(thrift.I64), byte(thrift.LIST)}, cnt)
+			for i := uint32(0); i < k; i++ {
+				c = append(c, 0, 0, 0, 0, 0, 0, 0, byte(i), byte(thrift.I16), 0, 0, 0, 1, 0, 7)
+			}
+			add(thrift.MAP, c)
+			embed(thrift.MAP, c)
+			// the same counts on a list<string> / set<struct> (unsigned count far beyond the input: everybody must fail)
+			l := be32([]byte{byte(thrift.STRING)}, cnt)
+			for i := uint32(0); i < k; i++ {
+				l = append(l, 0, 0, 0, 1, 'x')
+			}
+			add(thrift.LIST, l)
+			add(thrift.SET, append(be32([]byte{byte(thrift.STRUCT)}, cnt), 0, 0, 0))
+		}
+	}
 	// nesting depth around the limits (MaxSkipDepth = 1023 in Go, TB_SKIP_STACK_SIZE = 1024 in the native skipper):
 	// d nested lists list<list<...list<i32>>>, each with one element, the innermost one empty
 	for _, d := range []int{2, 500, 1000, 1021, 1022, 1023, 1024, 1025, 1026, 1100} {
